@@ -70,11 +70,11 @@ StatusLineShape(r) ==
     /\ r.status = (s[10] - 48) * 100 + (s[11] - 48) * 10 + (s[12] - 48)
 StatusRegistered(r) == <<r.status, r.phrase>> \in StatusTable
 
-\* a header line: token ":" OWS value, no CR / LF / NUL anywhere in the line
+\* a header line: token ":" OWS value, no CR / LF anywhere in the line
 HeaderLineOk(h) ==
     /\ h.colon
     /\ Len(h.nb) >= 1 /\ \A i \in 1..Len(h.nb) : IsTchar(h.nb[i])
-    /\ \A i \in 1..Len(h.vb) : h.vb[i] # CR /\ h.vb[i] # LF /\ h.vb[i] # NUL
+    /\ \A i \in 1..Len(h.vb) : h.vb[i] # CR /\ h.vb[i] # LF       \* "no line break inside" (C05 says nothing about NUL)
 
 FramingHeaders == {"content-length", "transfer-encoding", "content-type", "content-range"}
 
